@@ -77,6 +77,8 @@ class Closure:
     def __init__(s, fname, upvars): s.fname = fname; s.upvars = upvars
     @property
     def fields(s): return s.upvars
+class Coroutine:
+    def __init__(s, fname, upvars): s.fname = fname; s.fields = list(upvars); s.variant = 0; s.ty = 'coroutine'
 class FnItem:
     def __init__(s, name): s.name = name
 class Instant:
@@ -188,7 +190,7 @@ class Program:
                 for ln in range(a - 1, b + 1):
                     pl = plines[ln - 1] if ln - 1 < len(plines) else ''
                     if '{closure@' not in pl and '{coroutine@' not in pl and 'async ' not in pl: continue
-                    names = re.findall(r'\{((?:[^{} ]|\{(?:closure|constant|impl)#\d+\})*?\{closure#\d+\}) (?:closure_kind_ty|upvar_tys|resume_ty)', vlines[ln - 1])
+                    names = re.findall(r'\{(?:static )?((?:[^{} ]|\{(?:closure|constant|impl)#\d+\})*?\{closure#\d+\}) (?:closure_kind_ty|upvar_tys|resume_ty)', vlines[ln - 1])
                     mm = re.match(r'^\s*let (?:mut )?_(\d+): ', pl)
                     if mm and names: s.clo_of_local[(f.name, int(mm.group(1)))] = names[0]
                     if names: s.clo_on_line[(tag, ln)] = names
@@ -300,11 +302,17 @@ class Interp:
                 cur = load(Ref(cell, path))
                 if cur is None:
                     cur = Agg('?', 0, []); store(Ref(cell, path), cur)
-                if isinstance(cur, (Agg, Closure)):
+                if isinstance(cur, (Agg, Closure, Coroutine)):
                     while len(cur.fields) <= pr[1]: cur.fields.append(None)
                 else: raise Unsupported(f'field of {cur!r}')
                 path.append(pr[1])
-            elif pr[0] == 'downcast': pass
+            elif pr[0] == 'downcast':
+                mm = re.match(r'variant#(\d+)$', pr[1])
+                if mm:
+                    cur = load(Ref(cell, path)); idx = 100 + int(mm.group(1))
+                    while len(cur.fields) <= idx: cur.fields.append(None)
+                    if cur.fields[idx] is None: cur.fields[idx] = Agg('covariant', int(mm.group(1)), [])
+                    path.append(idx)
             else: raise Unsupported('proj ' + str(pr))
         return Ref(cell, path)
     def read(s, frame, place): return load(s.walk(frame, place))
@@ -342,6 +350,11 @@ class Interp:
             raise Unsupported('anonymous closure const')
         if re.search(r'::promoted\[\d+\]$', c) or c in s.p.consts:
             cf = s.p.consts.get(c)
+            if cf is None:
+                mm = re.match(r'^(.*)::(promoted\[\d+\])$', c)
+                if mm:
+                    ff = s.p.resolve(mm.group(1))
+                    if ff is not None: cf = s.p.consts.get(ff.name + '::' + mm.group(2))
             if cf is None: raise Unsupported('const item ' + c)
             return s.eval_const(ctx, cf)
         if c.startswith('ZeroSized'): return unit()
@@ -358,7 +371,7 @@ class Interp:
         if k == 'ref': return s.walk(frame, rv[2])
         if k == 'discr':
             v = s.read(frame, rv[1])
-            if isinstance(v, Agg): return z3.BitVecVal(v.variant, 64) if is_conc(v.variant) else v.variant
+            if isinstance(v, (Agg, Coroutine)): return z3.BitVecVal(v.variant, 64) if is_conc(v.variant) else v.variant
             raise Unsupported(f'discr of {v!r}')
         if k == 'binop': return s.binop(rv[1], s.operand(ctx, frame, f, rv[2], ln), s.operand(ctx, frame, f, rv[3], ln))
         if k == 'unop':
@@ -397,6 +410,7 @@ class Interp:
                     cands = [n for n, g in s.p.fns.items() if n.startswith(f.name + '::{closure#') and g.args and span[1:-1] in g.locals[g.args[0]].ty]
                     if len(cands) == 1: name = cands[0]
                 if name is None: raise Unsupported('closure identity ' + ty)
+                if ty.startswith('{coroutine'): return Coroutine(name, [s.operand(ctx, frame, f, o, ln) for n, o in flds])
                 return Closure(name, [s.operand(ctx, frame, f, o, ln) for n, o in flds])
         raise Unsupported('rvalue ' + k)
 
@@ -647,6 +661,72 @@ class Interp:
         if g.endswith('box_assume_init_into_vec_unsafe'):
             mu = load(A[0].fields[0].fields[0]); arr = mu.fields[1].fields[0].fields[0]
             return SeqM(list(arr.fields))
+        # ---- futures
+        if tc and tc[1] == 'IntoFuture' and tc[2] == 'into_future': return A[0]
+        if g.endswith('Pin::new_unchecked'): return Agg('Pin', 0, [A[0]])
+        if tc and tc[1] == 'Future' and tc[2] == 'poll':
+            co = deref(A[0].fields[0])
+            if co.fname.startswith('env::gate') and co.variant == 0:
+                ready = getattr(ctx, 'gate_policy', lambda c, co: True)(ctx, co)
+                if not ready: return Agg('Poll', 1, [])
+            fn = s.p.fns[co.fname]
+            r = yield from s.call_fn(ctx, fn, [A[0], A[1]]); return r
+        # ---- SystemTime
+        if g.endswith('SystemTime::now'): return Opaque('systime')
+        if g.endswith('SystemTime::duration_since'):
+            t = ctx.fresh_int('unix_ns'); prev = getattr(ctx, 'sys_vars', [])
+            ctx.add(t >= (prev[-1] if prev else 0)); ctx.sys_vars = prev + [t]
+            return Agg('Result', 0, [Duration(t)])
+        if g.endswith('Result::unwrap'):
+            if A[0].variant != 0: raise Panic('unwrap on Err')
+            return A[0].fields[0]
+        if g.endswith('::saturating_sub'):
+            return z3.If(z3.ULT(A[0], A[1]), z3.BitVecVal(0, A[0].size()), A[0] - A[1])
+        # ---- DashMap (one shard lock)
+        if g.endswith('DashMap::new'):
+            m = MapM(); m.shard = LockM(None, 'shard'); return m
+        md = re.search(r'DashMap::(get|get_mut|contains_key|remove|insert|len|clear|iter)$', g)
+        if md:
+            m = deref(A[0]); op = md.group(1)
+            if not hasattr(m, 'shard'): m.shard = LockM(None, 'shard')
+            mode = 'r' if op in ('get', 'contains_key', 'len', 'iter') else 'w'
+            gd = yield from s.acquire(ctx, m.shard, mode)
+            if op == 'len': s.drop_val(ctx, gd); return z3.BitVecVal(len(m.items), 64)
+            if op == 'clear': m.items.clear(); s.drop_val(ctx, gd); return unit()
+            if op == 'iter': s.drop_val(ctx, gd); return IterM([Agg('RefMulti', 0, [Ref(SlotCell(it, 0)), Ref(SlotCell(it, 1))]) for it in m.items])
+            if op == 'insert':
+                k, v = A[1], A[2]; hit = None
+                conds = [str_eq(it[0], k) for it in m.items]
+                live = [(i, c) for i, c in enumerate(conds) if c is not False]
+                if any(c is True for _, c in live): i = [i for i, c in live if c is True][0]
+                else:
+                    none_c = z3.And([z3.Not(c) for _, c in live]) if live else True
+                    j = ctx.choose([c for _, c in live] + [none_c]) if live else 0
+                    i = live[j][0] if j < len(live) else len(conds)
+                s.drop_val(ctx, gd)
+                if i == len(conds): m.items.append([k, v]); return none()
+                old = m.items[i][1]; m.items[i][1] = v; return some(old)
+            k = deref(A[1])
+            while isinstance(k, Ref): k = deref(k)
+            conds = [str_eq(it[0], k) for it in m.items]
+            live = [(i, c) for i, c in enumerate(conds) if c is not False]
+            if any(c is True for _, c in live): i = [i for i, c in live if c is True][0]
+            else:
+                none_c = z3.And([z3.Not(c) for _, c in live]) if live else True
+                j = ctx.choose([c for _, c in live] + [none_c]) if live else 0
+                i = live[j][0] if j < len(live) else len(conds)
+            found = i < len(conds)
+            if op == 'contains_key': s.drop_val(ctx, gd); return found
+            if op == 'remove':
+                s.drop_val(ctx, gd)
+                if not found: return none()
+                it = m.items.pop(i); return some(Agg('tuple', 0, [it[0], it[1]]))
+            if not found: s.drop_val(ctx, gd); return none()
+            return some(Agg('DashRef', 0, [gd, Ref(SlotCell(m.items[i], 1, 'dashval')), Ref(SlotCell(m.items[i], 0))]))
+        if tc and tc[0] in ('Ref', 'RefMut') and tc[2] in ('deref', 'deref_mut'): return deref(A[0]).fields[1]
+        if g.endswith('RefMulti::value'): return deref(A[0]).fields[1]
+        if g.endswith('RefMulti::key'): return deref(A[0]).fields[0]
+        if g.endswith('mem::drop'): s.drop_val(ctx, A[0]); return unit()
         # ---- Arc / dyn Fn
         if g.endswith('Arc::new'): return A[0]
         if tc and tc[0] == 'Arc' and tc[2] == 'deref': return A[0]
